@@ -459,7 +459,14 @@ class WorkerPool:
                 raise ValueError("pool is shutting down")
             self._running.add(reply)
             if not self._try_send_to_primary_thread(reply):
-                self.execmodel.start(self._perform_spawn, (reply,))
+                try:
+                    self.execmodel.start(self._perform_spawn, (reply,))
+                except BaseException:
+                    # no thread could be started: the call is not accepted
+                    # and must not keep waitall()/terminate() from
+                    # ever becoming true
+                    self._running.discard(reply)
+                    raise
         return reply
 
     def terminate(self, timeout: float | None = None) -> bool:
